@@ -145,6 +145,25 @@ func (s *H20Store) exec(tx *H20Txn, query string, args []interface{}) error {
 		return err
 	}
 	if tx == nil {
+		// an autocommitted statement: only the removal of an upload row is modelled
+		if q == "DELETE FROM Uploads WHERE UploadID = ?" && len(args) == 1 {
+			id, ok := h20str(args[0])
+			if !ok {
+				return errors.New("h20: bad UploadID type")
+			}
+			for _, r := range s.Records {
+				if r.Upload == id {
+					return errors.New("h20: FOREIGN KEY constraint failed: Records.UploadID")
+				}
+			}
+			for k, u := range s.Uploads {
+				if u.ID == id {
+					s.Uploads = append(append([]H20Upload(nil), s.Uploads[:k]...), s.Uploads[k+1:]...)
+					break
+				}
+			}
+			return nil
+		}
 		return s.unmodelled("(outside a transaction) " + q)
 	}
 	if tx.done {
@@ -420,6 +439,10 @@ func H20SQLStmtExec(st *sql.Stmt, args []interface{}) (sql.Result, error) {
 
 func H20SQLTxExec(tx *sql.Tx, query string, args []interface{}) (sql.Result, error) {
 	return nil, H20.exec(h20txn(tx), query, args)
+}
+
+func H20SQLDBExec(d *sql.DB, query string, args []interface{}) (sql.Result, error) {
+	return nil, H20.exec(nil, query, args)
 }
 
 func H20SQLTxCommit(tx *sql.Tx) error   { return H20.commit(h20txn(tx)) }
